@@ -47,6 +47,9 @@ def gen_case(rng):
     avars = [[f"a{i}", rng.choice(FM)] for i in range(rng.randint(1, 3))]
     hvars = [[f"h{i}", rng.choice(["I", "Q", "q", "i"])]
              for i in range(rng.choice([0, 0, 1, 2]))]
+    # variables of a second HashMap object of the same program
+    hvars2 = [[f"g{i}", rng.choice(["I", "Q", "q", "i"])]
+              for i in range(rng.choice([0, 1, 2]))] if hvars else []
     use_dict = rng.random() < 0.35
     subcls = [[[f"s{j}x{i}", rng.choice(FM)]
                for i in range(rng.randint(1, 3))]
@@ -65,6 +68,8 @@ def gen_case(rng):
         vs.append(["main", "array", n, f])
     for n, f in hvars:
         vs.append(["main", "hash", n, f])
+    for n, f in hvars2:
+        vs.append(["main", "hash", n, f])
     if use_dict:
         vs.append(["main", "dkey", "k0", "I"])
         vs.append(["main", "dval", "v0", "Q"])
@@ -81,7 +86,8 @@ def gen_case(rng):
                           "var"])
         src = rng.randrange(len(vs))
         writes.append([t, how, src, rng.randint(1, 100)])
-    return dict(mlocals=mlocals, avars=avars, hvars=hvars, use_dict=use_dict,
+    return dict(mlocals=mlocals, avars=avars, hvars=hvars, hvars2=hvars2,
+                use_dict=use_dict,
                 subcls=subcls, insts=insts, vars=vs, writes=writes,
                 subarr=subarr, prelayout=rng.random() < 0.3,
                 initseed=rng.getrandbits(32))
@@ -119,6 +125,11 @@ def build(case):
         ns["h"] = h
         for n, f in case["hvars"]:
             ns[n] = h.globalVar(f, 0)
+        if case.get("hvars2"):
+            h2 = HashMap()
+            ns["h2"] = h2
+            for n, f in case["hvars2"]:
+                ns[n] = h2.globalVar(f, 0)
     if case["use_dict"]:
         Key = type("Key", (Structure,), {"k0": Member("I")})
         Value = type("Value", (Structure,), {"v0": Member("Q"),
@@ -258,6 +269,17 @@ def check_case(case, res, use_v=True):
             ld = prog.Loaded(b.e, sess)
         except AssembleError as ex:
             res.count("status:assemble_error")
+            return
+        except Exception as ex:
+            # a well-formed program of documented constructs that the
+            # library cannot even generate
+            import traceback
+            res.case(case, nontrivial=False)
+            res.count("status:generator_crash")
+            res.violation("unexplained:program-generation-raised",
+                          f"building the program raised "
+                          f"{type(ex).__name__}: {str(ex)[:200]}", case=case,
+                          witness=traceback.format_exc()[-1200:])
             return
         try:
             ld.load()
